@@ -65,6 +65,7 @@ pub fn fixed_width(ct: ColumnType) -> Option<usize> {
 
 #[cfg_attr(kani, kani::proof)]
 #[cfg_attr(kani, kani::stub(std::fmt::format, fmt_stub))]
+#[cfg_attr(kani, kani::stub(std::io::_print, print_stub))]
 #[cfg_attr(kani, kani::unwind(10))]
 pub fn k3_parse_fixed() {
     let b: [u8; 10] = vk::any();
@@ -78,7 +79,7 @@ pub fn k3_parse_fixed() {
     };
     vk::assume(!stringlike(ct) && !temporal(ct));
     let mut inp = &b[..n];
-    let r = ValueInner::parse_from(&mut inp, ct, unsigned);
+    let r = noerr(ValueInner::parse_from(&mut inp, ct, unsigned));
     if let Some(w) = fixed_width(ct) {
         if n < w {
             vk_cover!(w == 8, "cover: short input for an 8-byte type");
@@ -147,7 +148,7 @@ pub fn k3_parse_bytes() {
     };
     vk::assume(stringlike(ct));
     let mut inp = &v[..];
-    let r = ValueInner::parse_from(&mut inp, ct, unsigned);
+    let r = noerr(ValueInner::parse_from(&mut inp, ct, unsigned));
     // the client's length prefix, decoded per protocol
     let (hl, len): (usize, Option<u64>) = if n == 0 {
         (0, None)
@@ -198,7 +199,7 @@ pub fn k3_parse_temporal() {
     };
     vk::assume(temporal(ct));
     let mut inp = &b[..n];
-    let r = ValueInner::parse_from(&mut inp, ct, unsigned);
+    let r = noerr(ValueInner::parse_from(&mut inp, ct, unsigned));
     if n >= 1 && 1 + b[0] as usize <= n {
         let l = b[0] as usize;
         vk_cover!(l == 11, "cover: 11-byte datetime");
